@@ -393,6 +393,10 @@ def handle (st : DState) (j : Json) : R (DState × Json) := do
   | "coord_init" =>
     let S ← jsettings st.tables (← jfield j "settings")
     return ({ st with settings := some S, cst := NSG.Coord.init, seen := [] }, Json.mkObj [("ok", true)])
+  | "coord_settings" =>
+    -- the settings change between two events (a re-labelling changed the goals); the state is kept
+    let S ← jsettings st.tables (← jfield j "settings")
+    return ({ st with settings := some S }, Json.mkObj [("ok", true)])
   | "ev" =>
     match st.settings with
     | none => throw "no settings"
